@@ -410,6 +410,10 @@ def jobs(tier):
             add("perm", scorer, 4, 2, 3 if tier == "quick" else 6)     # column permutation needs p=2: kept at n=4
         else:
             add("perm", scorer, n, p, lim)
+        if scorer == "GaussianCovCost" and n > 4:
+            add("reverse", scorer, 4, pp, ll)      # n=5, p=2, cut [0,5): degree-4 identity in 10 variables, not decided in 45 s
+            add("shift", scorer, 4, pp, ll)
+            continue
         add("reverse", scorer, n, pp, ll)
         if scorer not in ("L2Saving",):
             add("shift", scorer, n, pp, ll)
